@@ -7,7 +7,9 @@ native reader supports, 1..3 payload attributes (all fb dtypes, ranks 0..3),
 metadata changes so that worker completion order varies), then reads with
 file_parallelism T in 1..S+3 and 16, 33, 64, shards=k, shard_filter, shuffle on/off, early
 drop after j examples, and two native iterators alive at the same time on
-different splits advanced in a generated interleaving across epoch boundaries.
+different splits advanced in a generated interleaving across epoch boundaries
+(unshuffled or shuffled); in a quarter of the cases a native pass over another
+dataset has failed earlier in the same process (missing shard file).
 Oracle: as_numpy_iterator_rust(shuffle=0) yields the same sequence as
 as_numpy_iterator(shuffle=0), bitwise per attribute with the same dtype and
 shape; shuffled => the same multiset; an empty selection raises in both; an
@@ -97,7 +99,10 @@ def strategy_reader(draw, tier):
             })))
     threads = draw(st.sampled_from([None, None, 1, 2, 3]))
     return {"compression": comp, "attrs": attrs, "shards": shards,
-            "reads": reads, "pair": pair, "threads": threads}
+            "reads": reads, "pair": pair, "threads": threads,
+            # earlier in the same process a native pass over ANOTHER dataset
+            # failed (a shard file was missing): later passes are unaffected
+            "failed_pass_first": draw(st.integers(0, 3)) == 0}
 
 
 def os_threads() -> int:
@@ -142,6 +147,22 @@ def run_reader(case, ctx):
                 next_id += n
                 runs.append([split, ids, {"k": j % 2 + 1}])  # forces a cut
         dsops.filler_session(ds, desc, runs)
+        if case.get("failed_pass_first"):
+            broken_desc = dsops.simple_desc("fb", case["compression"], 1,
+                                            ["xxh64"], payload=False)
+            broken = dsops.create_dataset(root / "broken", broken_desc)
+            dsops.filler_session(broken, broken_desc,
+                                 [["train", [1, 2, 3], None]])
+            victim = sorted((root / "broken" / "train").glob("*.fb"))[1]
+            victim.unlink()
+            try:
+                dsops.read_all(broken, "train", "rust", shuffle=0,
+                               file_parallelism=2)
+                ctx.label("failed-pass-did-not-fail")
+            except BaseException as exc:  # pylint: disable=broad-except
+                if type(exc).__name__ in ("KeyboardInterrupt", "SystemExit"):
+                    raise
+                ctx.label("failed-pass-first")
         # the native reader keeps process-wide state: a dataset of another
         # attribute count read earlier in the same process must not matter
         other_desc = dsops.simple_desc("fb", case["compression"], 2, ["xxh64"],
